@@ -259,7 +259,7 @@ Lemma xnc_lay_stmt s : stmt_nc s.
 Proof.
   induction s as [ce body IH | own fid body IH | s Hs] using stmt_ind2; intros inrep st.
   - rewrite lay_stmt_repeat. apply xnc_bind; [apply xnc_lev|]. intros n.
-    apply xnc_bind; [apply xnc_lift, nc_gai_count|]. intros n'.
+    apply xnc_bind; [apply xnc_lift, nc_gai_count|]. intros n'. destruct (65536 <? n'); [exact I|].
     apply xnc_iter. intros st0. apply xnc_lay_list. exact IH.
   - destruct inrep; [exact I|]. rewrite lay_stmt_include. apply xnc_bind; [|intros; exact I].
     apply xnc_lay_list. apply Forall_cut_end. exact IH.
